@@ -26,7 +26,7 @@ type Solver struct {
 	lines   [][]string     // per level: script lines
 	log     io.Writer
 	dead    bool
-	kind    string // "z3" (default) or "cvc5" (integer encoding of bit-vectors, for the x/÷-by-constant kernels)
+	kind    string  // "z3" (default) or "cvc5" (integer encoding of bit-vectors, for the x/÷-by-constant kernels)
 	mirror  *Solver // for kind cvc5: a z3 session receiving the same script, asked when cvc5 gives up quickly
 	tlimit  int
 
